@@ -23,7 +23,7 @@ ASSUMPTIONS = [
     "GeneratedCodeOrigin is a code origin for the purpose of '+' (it subclasses CodeOrigin)",
     "points with equal index but different line/column are compared like any others: by index only",
 ]
-MUST_SEE = ["concat_of_many_operands", "get_raw_after_file_appeared", "grid_pairs", "grid_triples", "illformed_rejected", "hull_merges", "multi_results", "multi_operands", "sourceset_results", "get_raw_checked", "nested_range_pairs", "equal_but_distinct_sources", "same_index_other_linecol"]
+MUST_SEE = ["ranges_past_end_of_text", "concat_of_many_operands", "get_raw_after_file_appeared", "grid_pairs", "grid_triples", "illformed_rejected", "hull_merges", "multi_results", "multi_operands", "sourceset_results", "get_raw_checked", "nested_range_pairs", "equal_but_distinct_sources", "same_index_other_linecol"]
 CONFIG = {
     "quick": {"shards": 16, "tuples": 15000, "watchdog_s": 300},
     "thorough": {"shards": 32, "tuples": 40000, "watchdog_s": 3000},
@@ -301,6 +301,23 @@ def origin_checks(ctx):
                     ctx.count("get_raw_checked")
                     if co.get_raw() != O.raw_slice(s, a, b):
                         ctx.violation("get_raw", "get_raw is not the exact slice", {"src": s, "range": (a, b)})
+
+    # ranges reaching past the end of the text (an end-of-input token): the slice is clipped like any Python slice
+    if ctx.shard == 1 or ctx.nshards == 1:
+        from pyoak.origin import CodePoint, CodeRange
+
+        for s, t in enumerate(O.TEXTS):
+            n = len(t)
+            for a, b in ((n, n + 1), (max(n - 2, 0), n + 3), (0, n + 1), (n + 1, n + 2), (n, n)):
+                co = CodeOrigin(O.source(s), CodeRange(CodePoint(a, 1, a), CodePoint(b, 1, b)))
+                head = CodeOrigin(O.source(s), CodeRange(CodePoint(0, 1, 0), CodePoint(min(a, n), 1, min(a, n))))
+                ctx.evaluations += 2
+                ctx.count("ranges_past_end_of_text")
+                exp1 = None if O.raw_slice(s, 0, 0) is None else t[a:b]
+                exp2 = None if O.raw_slice(s, 0, 0) is None else t[0:b]
+                hull = head + co if min(a, n) >= a or a <= n else None
+                if co.get_raw() != exp1 or (hull is not None and type(hull) is CodeOrigin and hull.get_raw() != exp2):
+                    ctx.violation("get_raw", "get_raw of a range reaching past the end of the text is not the (clipped) slice", {"src": s, "range": (a, b), "got": co.get_raw(), "exp": exp1})
 
     def do_pair(a, b, oa, ob):
         d = {"a": a, "b": b}
